@@ -26,6 +26,7 @@ import ScalesModel.Adapter.ThriftCodec
 import ScalesModel.Adapter.Serial
 import ScalesModel.Adapter.MuxT
 import ScalesModel.Adapter.Watermark
+import ScalesModel.Adapter.ServerSet
 open Scales
 
 def components : List Comp := [
@@ -49,7 +50,8 @@ def components : List Comp := [
   ⟨"thriftcodec", Scales.ThriftCodec.comp.run⟩,
   ⟨"serial", Scales.Serial.comp.run⟩,
   ⟨"muxt", Scales.MuxT.comp.run⟩,
-  ⟨"watermark", Scales.Watermark.comp.run⟩
+  ⟨"watermark", Scales.Watermark.comp.run⟩,
+  ⟨"serverset", Scales.ServerSet.comp.run⟩
 ]
 
 structure CaseAcc where
